@@ -18,6 +18,8 @@ VARIABLE c
 \*   distinct_needs no shared name at all: providers + 2 crates whose modules need different helpers and imports (Option, Vec,
 \*                  HashMap, unit, a date, a generic) - state a backend keeps across the modules of one run must not show
 \* renames: none | one (only the first provider carries serde(rename)) | all (each provider its own rename)
+\* folder mode only: in single-file mode the providers' same-named definitions would all land in ONE file, which is the arrival-order
+\* finding listed under C06 (same-name-same-kind), not a question of hashing
 Init == c \in [form : Forms, providers : NProviders, renames : Renames, lang : Langs, mode : Modes]
 Next == UNCHANGED c
 Emit == PrintT(<<"REPLAY", ToJson(c)>>)
